@@ -177,3 +177,511 @@ Proof.
   rewrite (loop_all_ok key g r2 l); [|intros a Ha; rewrite <- Hfg; [apply Hall|]; exact Ha].
   f_equal. apply map_ext_in. intros a Ha. rewrite Hfg; [reflexivity | exact Ha].
 Qed.
+
+(* ------------------------------------------------------------------ what an update keeps *)
+Definition readable (f : field) : Prop := needs_default (f_nullable f) (f_default f) (f_type f) = false.
+
+Definition field_ext (f f' : field) : Prop :=
+  f_name f' = f_name f /\ f_short f' = f_short f /\ f_type f' = f_type f.
+(* l' is l, element by element related by R, followed by new elements that satisfy Q *)
+Definition list_ext {A} (R : A -> A -> Prop) (Q : A -> Prop) (l l' : list A) : Prop :=
+  exists l1 l2, l' = l1 ++ l2 /\ Forall2 R l l1 /\ Forall Q l2.
+Definition ent_ext (e e' : entity) : Prop :=
+  e_name e' = e_name e /\ e_short e' = e_short e /\
+  list_ext field_ext (fun f => readable f /\ ~ In (f_name f) (map f_name (e_fields e))) (e_fields e) (e_fields e').
+Definition ns_ext (n n' : nspace) : Prop :=
+  n_name n' = n_name n /\ n_id n' = n_id n /\
+  list_ext ent_ext (fun e => ~ In (e_name e) (map e_name (n_ents n))) (n_ents n) (n_ents n').
+Definition model_ext (M M' : list nspace) : Prop :=
+  list_ext ns_ext (fun n => ~ In (n_name n) (map n_name M)) M M'.
+
+Lemma Forall2_refl : forall A (R : A -> A -> Prop) l, (forall a, In a l -> R a a) -> Forall2 R l l.
+Proof. induction l as [|a l IH]; intros H; constructor; [apply H; left; reflexivity | apply IH; intros b Hb; apply H; right; exact Hb]. Qed.
+Lemma list_ext_refl : forall A (R : A -> A -> Prop) Q l, (forall a, In a l -> R a a) -> list_ext R Q l l.
+Proof. intros. exists l, []. split; [rewrite app_nil_r; reflexivity|]. split; [apply Forall2_refl; assumption | constructor]. Qed.
+Lemma list_ext_same : forall A (R : A -> A -> Prop) Q l l', Forall2 R l l' -> list_ext R Q l l'.
+Proof. intros. exists l', []. split; [rewrite app_nil_r; reflexivity|]. split; [assumption | constructor]. Qed.
+
+Lemma field_ext_refl : forall f, field_ext f f.
+Proof. intros f. repeat split. Qed.
+Lemma ent_ext_refl : forall e, ent_ext e e.
+Proof. intros e. split; [reflexivity|]. split; [reflexivity|]. apply list_ext_refl. intros. apply field_ext_refl. Qed.
+Lemma ns_ext_refl : forall n, ns_ext n n.
+Proof. intros n. split; [reflexivity|]. split; [reflexivity|]. apply list_ext_refl. intros. apply ent_ext_refl. Qed.
+Lemma model_ext_refl : forall M, model_ext M M.
+Proof. intros M. apply list_ext_refl. intros. apply ns_ext_refl. Qed.
+
+Lemma upd_field_ext : forall qfs f, field_ext f (fst (upd_field qfs f)).
+Proof.
+  intros qfs f. unfold upd_field.
+  destruct (find_field (f_name f) qfs) as [g|]; [|apply field_ext_refl].
+  destruct (negb (N.eqb (f_short f) (f_short g))); [apply field_ext_refl|].
+  destruct (negb (ftype_eqb (f_type f) (f_type g))); [apply field_ext_refl|].
+  destruct (f_nullable f && needs_default (f_nullable g) (f_default g) (f_type f)); [apply field_ext_refl|].
+  cbn. repeat split.
+Qed.
+
+Lemma insert_new_ext : forall news fs, exists added,
+  fst (insert_new news fs) = fs ++ added /\ Forall readable added /\ Forall (fun f => In (f_name f) (map f_name news)) added.
+Proof.
+  induction news as [|g news IH]; intros fs; cbn [insert_new].
+  - exists []. cbn [fst]. rewrite app_nil_r. repeat split; constructor.
+  - destruct (needs_default (f_nullable g) (f_default g) (f_type g)) eqn:Hnd.
+    + exists []. cbn [fst]. rewrite app_nil_r. repeat split; constructor.
+    + destruct (IH (fs ++ [mkF (f_name g) (reserved + len fs) (f_type g) (f_default g) (f_nullable g) (f_depr g)])) as [added [Heq [Hr Hn]]].
+      exists (mkF (f_name g) (reserved + len fs) (f_type g) (f_default g) (f_nullable g) (f_depr g) :: added).
+      split; [rewrite Heq, <- app_assoc; reflexivity|]. split.
+      * constructor; [exact Hnd | exact Hr].
+      * constructor; [left; reflexivity|]. eapply Forall_impl; [|exact Hn]. intros a Ha. right. exact Ha.
+Qed.
+
+Lemma new_fields_fresh : forall e q f, In f (new_fields e q) -> ~ In (f_name f) (map f_name (e_fields e)).
+Proof.
+  intros e q f H. unfold new_fields in H. apply filter_In in H. destruct H as [_ H].
+  apply negb_true_iff in H. apply (hask_false f_name) in H. exact H.
+Qed.
+
+Lemma entity_update_ext : forall o nsn e q, ent_ext e (fst (entity_update o nsn e q)).
+Proof.
+  intros o nsn e q. unfold entity_update.
+  destruct (loop f_name (o_fld o nsn (e_name e)) (upd_field (e_fields q)) (e_fields e)) as [fs1 er1] eqn:Hl.
+  assert (H1 : Forall2 field_ext (e_fields e) fs1).
+  { replace fs1 with (fst (loop f_name (o_fld o nsn (e_name e)) (upd_field (e_fields q)) (e_fields e))) by (rewrite Hl; reflexivity).
+    apply loop_Forall2; intros; [apply field_ext_refl | apply upd_field_ext]. }
+  destruct er1 as [x|].
+  - cbn. split; [reflexivity|]. split; [reflexivity|]. apply list_ext_same. exact H1.
+  - set (news := sort_by (fun f => o_new o nsn (e_name e) (f_name f)) (new_fields e q)).
+    destruct (insert_new news fs1) as [fs2 er2] eqn:Hi.
+    destruct (insert_new_ext news fs1) as [added [Heq [Hr Hn]]]. rewrite Hi in Heq. cbn in Heq. subst fs2.
+    assert (Hext : list_ext field_ext (fun f => readable f /\ ~ In (f_name f) (map f_name (e_fields e))) (e_fields e) (fs1 ++ added)).
+    { exists fs1, added. split; [reflexivity|]. split; [exact H1|].
+      rewrite Forall_forall in *. intros f Hf. split; [apply Hr; exact Hf|].
+      specialize (Hn f Hf). apply in_map_iff in Hn. destruct Hn as [g [Hg Hgin]]. rewrite <- Hg.
+      apply (new_fields_fresh e q). unfold news in Hgin. apply sort_by_In in Hgin. exact Hgin. }
+    destruct er2; cbn; (split; [reflexivity|]; split; [reflexivity|]; exact Hext).
+Qed.
+
+Lemma upd_ent_ext : forall o nsn qes e, ent_ext e (fst (upd_ent o nsn qes e)).
+Proof.
+  intros. unfold upd_ent. destruct (find_ent (e_name e) qes) as [q|]; [|apply ent_ext_refl].
+  destruct (negb (short_eqb (e_short e) (e_short q))); [apply ent_ext_refl | apply entity_update_ext].
+Qed.
+
+Lemma new_ents_fresh : forall n p q, In q (new_ents n p) -> ~ In (e_name q) (map e_name (n_ents n)).
+Proof.
+  intros n p q H. unfold new_ents in H. apply filter_In in H. destruct H as [_ H].
+  apply negb_true_iff in H. apply (hask_false e_name) in H. exact H.
+Qed.
+
+Lemma upd_ns_ext : forall o sys P n, ns_ext n (fst (upd_ns o sys P n)).
+Proof.
+  intros. unfold upd_ns. destruct (find_ns (n_name n) P) as [p|]; [|apply ns_ext_refl].
+  destruct (negb (N.eqb (n_id p) (n_id n))); [apply ns_ext_refl|].
+  destruct (loop e_name (o_ent o (n_name n)) (upd_ent o (n_name n) (n_ents p)) (n_ents n)) as [es er] eqn:Hl.
+  assert (H1 : Forall2 ent_ext (n_ents n) es).
+  { replace es with (fst (loop e_name (o_ent o (n_name n)) (upd_ent o (n_name n) (n_ents p)) (n_ents n))) by (rewrite Hl; reflexivity).
+    apply loop_Forall2; intros; [apply ent_ext_refl | apply upd_ent_ext]. }
+  destruct er; cbn; (split; [reflexivity|]; split; [reflexivity|]).
+  - apply list_ext_same. exact H1.
+  - exists es, (new_ents n p). split; [reflexivity|]. split; [exact H1|].
+    rewrite Forall_forall. intros q Hq. apply (new_ents_fresh n p). exact Hq.
+Qed.
+
+Lemma new_nss_fresh : forall M P p, In p (new_nss M P) -> ~ In (n_name p) (map n_name M).
+Proof.
+  intros M P p H. unfold new_nss in H. apply filter_In in H. destruct H as [_ H].
+  apply negb_true_iff in H. apply (hask_false n_name) in H. exact H.
+Qed.
+
+(* whatever the verdict and whatever the iteration orders: every namespace, entity and field that
+   existed is still there with the same name, storage identifier and type; what was added to an
+   existing entity can be read on old rows *)
+Theorem upd_ext : forall o sys M v, model_ext (m_nss M) (m_nss (fst (upd o sys M v))).
+Proof.
+  intros. unfold upd. destruct (parse (if sys then 0 else 1) v) as [P|e]; [|apply model_ext_refl].
+  destruct (ns_check_fails sys P); [apply model_ext_refl|].
+  destruct (loop n_name (o_ns o) (upd_ns o sys P) (m_nss M)) as [nss er] eqn:Hl.
+  assert (H1 : Forall2 ns_ext (m_nss M) nss).
+  { replace nss with (fst (loop n_name (o_ns o) (upd_ns o sys P) (m_nss M))) by (rewrite Hl; reflexivity).
+    apply loop_Forall2; intros; [apply ns_ext_refl | apply upd_ns_ext]. }
+  destruct er; cbn.
+  - apply list_ext_same. exact H1.
+  - exists nss, (new_nss (m_nss M) P). split; [reflexivity|]. split; [exact H1|].
+    rewrite Forall_forall. intros p Hp. apply (new_nss_fresh (m_nss M) P). exact Hp.
+Qed.
+
+(* ------------------------------------------------------------------ well-formedness *)
+Definition wf_fields (fs : list field) : Prop :=
+  NoDup (map f_name fs) /\ NoDup (map f_short fs) /\ Forall (fun f => reserved <= f_short f /\ f_short f < reserved + len fs) fs.
+Definition wf_ent (e : entity) : Prop := wf_fields (e_fields e).
+Definition nspart (n : nspace) : option N := if N.eqb (n_name n) 0 then None else Some (n_id n).
+Definition wf_ents (part : option N) (es : list entity) : Prop :=
+  NoDup (map e_name es) /\ NoDup (map e_short es) /\ Forall (fun e => fst (e_short e) = part /\ wf_ent e) es.
+Definition wf_ns (n : nspace) : Prop := wf_ents (nspart n) (n_ents n).
+(* "sys" has identifier 0, every other namespace an identifier >= 1 *)
+Definition sys_rule (n : nspace) : Prop := if N.eqb (n_name n) 1 then n_id n = 0 else 1 <= n_id n.
+Definition wf_model (M : list nspace) : Prop :=
+  NoDup (map n_name M) /\ NoDup (map n_id M) /\ Forall wf_ns M /\ Forall sys_rule M.
+
+(* what parse_internal builds, while it builds it: positions are below the current length *)
+Definition wf_ns_b (n : nspace) : Prop := wf_ns n /\ Forall (fun e => snd (e_short e) < len (n_ents n)) (n_ents n).
+Definition wf_parse (decal : N) (P : list nspace) : Prop :=
+  NoDup (map n_name P) /\ NoDup (map n_id P) /\ Forall wf_ns_b P /\ Forall (fun n => decal <= n_id n /\ n_id n < decal + len P) P.
+
+Lemma nodup_snoc : forall A (l : list A) x, NoDup l -> ~ In x l -> NoDup (l ++ [x]).
+Proof.
+  intros A l x Hnd Hx. apply (Permutation_NoDup (l := x :: l)); [apply Permutation_cons_append | constructor; assumption].
+Qed.
+Lemma len_snoc : forall A (l : list A) x, len (l ++ [x]) = len l + 1.
+Proof. intros. rewrite len_app. reflexivity. Qed.
+Lemma fresh_bound : forall A (h : A -> N) b l, Forall (fun a => h a < b) l -> ~ In b (map h l).
+Proof.
+  intros A h b l H Hin. apply in_map_iff in Hin. destruct Hin as [a [He Ha]].
+  rewrite Forall_forall in H. specialize (H a Ha). lia.
+Qed.
+
+Lemma wf_fields_nil : wf_fields [].
+Proof. repeat split; constructor. Qed.
+
+Lemma wf_fields_snoc : forall fs nm ty df nu dp,
+  wf_fields fs -> ~ In nm (map f_name fs) -> wf_fields (fs ++ [mkF nm (reserved + len fs) ty df nu dp]).
+Proof.
+  intros fs nm ty df nu dp [Hn [Hs Hb]] Hfresh. unfold wf_fields. rewrite !map_app. cbn [map f_name f_short].
+  split; [apply nodup_snoc; assumption|]. split.
+  - apply nodup_snoc; [exact Hs|]. apply fresh_bound. eapply Forall_impl; [|exact Hb]. intros a [_ Ha]. exact Ha.
+  - rewrite len_snoc. apply Forall_app. split.
+    + eapply Forall_impl; [|exact Hb]. cbv beta. intros a [Ha1 Ha2]. split; lia.
+    + constructor; [|constructor]. cbn [f_short]. split; lia.
+Qed.
+
+Lemma add_fields_wf : forall ds acc fs, wf_fields acc -> add_fields ds acc = Ok fs -> wf_fields fs.
+Proof.
+  induction ds as [|d ds IH]; intros acc fs Hwf H; cbn [add_fields] in H.
+  - inversion H. subst. exact Hwf.
+  - destruct (has_field (fd_name d) acc) eqn:Hh; [discriminate|].
+    destruct (is_sys_field (fd_name d)); [discriminate|].
+    eapply IH; [|exact H]. apply wf_fields_snoc; [exact Hwf|]. apply (hask_false f_name). exact Hh.
+Qed.
+
+(* replace_ns puts n' where the namespace of that name was *)
+Lemma replace_ns_spec : forall l n n', NoDup (map n_name l) -> In n l -> n_name n' = n_name n ->
+  exists l1 l2, l = l1 ++ n :: l2 /\ replace_ns n' l = l1 ++ n' :: l2.
+Proof.
+  induction l as [|m l IH]; intros n n' Hnd Hin Hname; [destruct Hin|].
+  cbn in Hnd. inversion Hnd as [|? ? Hnotin Hnd']. subst. cbn [replace_ns].
+  destruct Hin as [->|Hin].
+  - rewrite Hname, N.eqb_refl. exists [], l. split; reflexivity.
+  - destruct (N.eqb (n_name m) (n_name n')) eqn:He.
+    + apply N.eqb_eq in He. exfalso. apply Hnotin. rewrite He, Hname. apply in_map. exact Hin.
+    + destruct (IH n n' Hnd' Hin Hname) as [l1 [l2 [H1 H2]]]. exists (m :: l1), l2. split; cbn; [rewrite H1 | rewrite H2]; reflexivity.
+Qed.
+
+Lemma insert_entity_wf : forall decal nsn d M M', wf_parse decal M -> insert_entity decal nsn d M = Ok M' -> wf_parse decal M'.
+Proof.
+  intros decal nsn d M M' Hwf H. unfold insert_entity in H.
+  destruct (add_fields (ed_fields d) []) as [fs|] eqn:Hf; [|discriminate].
+  pose proof (add_fields_wf _ _ _ wf_fields_nil Hf) as Hfs.
+  set (M1 := if has_ns nsn M then M else M ++ [mkNs nsn (len M + decal) []]) in *.
+  assert (Hwf1 : wf_parse decal M1).
+  { unfold M1. destruct (has_ns nsn M) eqn:Hh; [exact Hwf|].
+    destruct Hwf as [Hn [Hi [Hw Hb]]]. unfold wf_parse. rewrite !map_app. cbn [map n_name n_id].
+    split; [apply nodup_snoc; [exact Hn | apply (hask_false n_name); exact Hh]|]. split.
+    - apply nodup_snoc; [exact Hi|]. replace (len M + decal) with (decal + len M) by lia. apply fresh_bound.
+      eapply Forall_impl; [|exact Hb]. intros a [_ Ha]. exact Ha.
+    - split.
+      + apply Forall_app. split; [exact Hw|]. constructor; [|constructor].
+        split; [|constructor]. repeat split; constructor.
+      + rewrite len_snoc. apply Forall_app. split.
+        * eapply Forall_impl; [|exact Hb]. cbv beta. intros a [Ha1 Ha2]. split; lia.
+        * constructor; [|constructor]. cbn [n_id]. split; lia. }
+  clearbody M1. clear Hwf.
+  destruct (find_ns nsn M1) as [n|] eqn:Hfind; [|discriminate].
+  destruct (has_ent (ed_name d) (n_ents n)) eqn:Hhe; [discriminate|].
+  destruct (add_indexes fs (ed_idx d) []) as [ixs|]; [|discriminate].
+  inversion H. subst M'. clear H.
+  apply (findk_some n_name) in Hfind. destruct Hfind as [Hin Hname].
+  destruct Hwf1 as [Hn [Hi [Hw Hb]]].
+  set (e := mkE (ed_name d) (if N.eqb nsn 0 then None else Some (n_id n), len (n_ents n)) fs ixs [] (ed_depr d) (ed_ft d)).
+  destruct (replace_ns_spec M1 n (set_ents n (n_ents n ++ [e])) Hn Hin eq_refl) as [l1 [l2 [HM1 Hrep]]].
+  rewrite Hrep. subst M1. unfold wf_parse in *. rewrite !map_app in *. cbn [map] in *.
+  split; [exact Hn|]. split; [exact Hi|]. split.
+  - apply Forall_app in Hw. destruct Hw as [Hw1 Hw2]. inversion Hw2 as [|? ? Hwn Hw2']. subst.
+    apply Forall_app. split; [exact Hw1|]. constructor; [|exact Hw2'].
+    destruct Hwn as [[Hen [Hes Hef]] Hpos]. unfold wf_ns_b, wf_ns, wf_ents. cbn [n_ents set_ents].
+    rewrite !map_app. cbn [map].
+    assert (Hpart : nspart (set_ents n (n_ents n ++ [e])) = nspart n) by reflexivity.
+    rewrite Hpart. split; [split; [|split]|].
+    + apply nodup_snoc; [exact Hen|]. cbn. apply (hask_false e_name). exact Hhe.
+    + apply nodup_snoc; [exact Hes|]. cbn [e_short e]. intros Hc. apply in_map_iff in Hc. destruct Hc as [x [Hx Hxin]].
+      rewrite Forall_forall in Hpos. specialize (Hpos x Hxin). rewrite Hx in Hpos. cbn [snd] in Hpos. lia.
+    + apply Forall_app. split; [exact Hef|]. constructor; [|constructor]. cbn [e_short e fst e_fields]. split; [|exact Hfs].
+      unfold nspart. cbn [n_name n_id]. reflexivity.
+    + rewrite len_snoc. apply Forall_app. split.
+      * eapply Forall_impl; [|exact Hpos]. cbv beta. intros a Ha. lia.
+      * constructor; [|constructor]. cbn [e_short e snd]. lia.
+  - rewrite !len_app in *. apply Forall_app in Hb. destruct Hb as [Hb1 Hb2]. inversion Hb2 as [|? ? Hbn Hb2']. subst.
+    change (len (set_ents n (n_ents n ++ [e]) :: l2)) with (len (n :: l2)).
+    apply Forall_app. split; [exact Hb1|]. constructor; [exact Hbn | exact Hb2'].
+Qed.
+
+Lemma insert_entities_wf : forall decal nsn ds M M', wf_parse decal M -> insert_entities decal nsn ds M = Ok M' -> wf_parse decal M'.
+Proof.
+  induction ds as [|d ds IH]; intros M M' Hwf H; cbn [insert_entities] in H.
+  - inversion H. subst. exact Hwf.
+  - destruct (insert_entity decal nsn d M) as [M1|] eqn:H1; [|discriminate].
+    eapply IH; [|exact H]. eapply insert_entity_wf; eassumption.
+Qed.
+Lemma insert_blocks_wf : forall decal bs M M', wf_parse decal M -> insert_blocks decal bs M = Ok M' -> wf_parse decal M'.
+Proof.
+  induction bs as [|[nsn ds] bs IH]; intros M M' Hwf H; cbn [insert_blocks] in H.
+  - inversion H. subst. exact Hwf.
+  - destruct (insert_entities decal nsn ds M) as [M1|] eqn:H1; [|discriminate].
+    eapply IH; [|exact H]. eapply insert_entities_wf; eassumption.
+Qed.
+Lemma wf_parse_nil : forall decal, wf_parse decal [].
+Proof. intros. repeat split; constructor. Qed.
+
+(* parse_internal numbers namespaces, entities and fields by position: no collisions *)
+Theorem parse_wf : forall decal v P, parse decal v = Ok P -> wf_parse decal P.
+Proof.
+  intros decal v P H. unfold parse in H.
+  destruct (insert_blocks decal (v_blocks v) []) as [M|] eqn:Hb; [|discriminate].
+  destruct (consistent M); [|discriminate]. inversion H. subst.
+  eapply insert_blocks_wf; [apply wf_parse_nil | exact Hb].
+Qed.
+
+(* ------------------------------------------------------------------ an update keeps well-formedness *)
+Lemma NoDup_app_intro : forall A (l1 l2 : list A), NoDup l1 -> NoDup l2 -> (forall x, In x l1 -> ~ In x l2) -> NoDup (l1 ++ l2).
+Proof.
+  induction l1 as [|a l1 IH]; intros l2 H1 H2 Hd; cbn; [exact H2|].
+  inversion H1 as [|? ? Ha H1']. subst. constructor.
+  - intros Hin. apply in_app_or in Hin. destruct Hin as [Hin|Hin]; [apply Ha; exact Hin | apply (Hd a); [left; reflexivity | exact Hin]].
+  - apply IH; [exact H1' | exact H2 | intros x Hx; apply Hd; right; exact Hx].
+Qed.
+Lemma NoDup_map_filter : forall A B (h : A -> B) (p : A -> bool) l, NoDup (map h l) -> NoDup (map h (filter p l)).
+Proof.
+  induction l as [|a l IH]; intros H; cbn; [constructor|].
+  cbn in H. inversion H as [|? ? Ha H']. subst. destruct (p a); [|apply IH; exact H'].
+  cbn. constructor; [|apply IH; exact H'].
+  intros Hin. apply Ha. apply in_map_iff in Hin. destruct Hin as [x [Hx Hxin]]. apply filter_In in Hxin.
+  rewrite <- Hx. apply in_map. apply Hxin.
+Qed.
+Lemma NoDup_map_inj : forall A B (h : A -> B) l a b, NoDup (map h l) -> In a l -> In b l -> h a = h b -> a = b.
+Proof.
+  induction l as [|x l IH]; intros a b H Ha Hb He; [destruct Ha|].
+  cbn in H. inversion H as [|? ? Hx H']. subst.
+  destruct Ha as [->|Ha], Hb as [->|Hb].
+  - reflexivity.
+  - exfalso. apply Hx. rewrite He. apply in_map. exact Hb.
+  - exfalso. apply Hx. rewrite <- He. apply in_map. exact Ha.
+  - apply IH; assumption.
+Qed.
+
+Lemma wf_fields_same_keys : forall fs fs', map f_name fs' = map f_name fs -> map f_short fs' = map f_short fs -> wf_fields fs -> wf_fields fs'.
+Proof.
+  intros fs fs' Hn Hs [H1 [H2 H3]]. unfold wf_fields. rewrite Hn, Hs. split; [exact H1|]. split; [exact H2|].
+  assert (Hl : len fs' = len fs). { rewrite <- (len_map _ _ f_name fs'), Hn, len_map. reflexivity. }
+  rewrite Hl.
+  apply (Forall_map f_short (fun s => reserved <= s /\ s < reserved + len fs)).
+  rewrite Hs. apply (Forall_map f_short (fun s => reserved <= s /\ s < reserved + len fs)). exact H3.
+Qed.
+
+Lemma loop_fields_wf : forall rank qfs fs, wf_fields fs -> wf_fields (fst (loop f_name rank (upd_field qfs) fs)).
+Proof.
+  intros rank qfs fs H. eapply wf_fields_same_keys; [| |exact H].
+  - apply loop_map_inv. intros a _. apply upd_field_ext.
+  - apply loop_map_inv. intros a _. apply upd_field_ext.
+Qed.
+
+Lemma insert_new_wf : forall news fs, wf_fields fs -> NoDup (map f_name news) ->
+  (forall g, In g news -> ~ In (f_name g) (map f_name fs)) -> wf_fields (fst (insert_new news fs)).
+Proof.
+  induction news as [|g news IH]; intros fs Hwf Hnd Hfresh; cbn [insert_new]; [exact Hwf|].
+  destruct (needs_default (f_nullable g) (f_default g) (f_type g)); [exact Hwf|].
+  cbn in Hnd. inversion Hnd as [|? ? Hg Hnd']. subst.
+  apply IH.
+  - apply wf_fields_snoc; [exact Hwf | apply Hfresh; left; reflexivity].
+  - exact Hnd'.
+  - intros h Hh Hin. rewrite map_app in Hin. apply in_app_or in Hin. destruct Hin as [Hin|Hin].
+    + apply (Hfresh h); [right; exact Hh | exact Hin].
+    + cbn in Hin. destruct Hin as [Hin|[]]. apply Hg. rewrite Hin. apply in_map. exact Hh.
+Qed.
+
+Lemma entity_update_wf : forall o nsn e q, wf_ent e -> NoDup (map f_name (e_fields q)) -> wf_ent (fst (entity_update o nsn e q)).
+Proof.
+  intros o nsn e q Hwf Hq. unfold entity_update.
+  destruct (loop f_name (o_fld o nsn (e_name e)) (upd_field (e_fields q)) (e_fields e)) as [fs1 er1] eqn:Hl.
+  assert (H1 : wf_fields fs1).
+  { replace fs1 with (fst (loop f_name (o_fld o nsn (e_name e)) (upd_field (e_fields q)) (e_fields e))) by (rewrite Hl; reflexivity).
+    apply loop_fields_wf. exact Hwf. }
+  assert (Hnames : map f_name fs1 = map f_name (e_fields e)).
+  { replace fs1 with (fst (loop f_name (o_fld o nsn (e_name e)) (upd_field (e_fields q)) (e_fields e))) by (rewrite Hl; reflexivity).
+    apply loop_map_inv. intros a _. apply upd_field_ext. }
+  destruct er1; [exact H1|].
+  set (news := sort_by (fun f => o_new o nsn (e_name e) (f_name f)) (new_fields e q)).
+  assert (H2 : wf_fields (fst (insert_new news fs1))).
+  { apply insert_new_wf; [exact H1| |].
+    - apply (Permutation_NoDup (l := map f_name (new_fields e q))).
+      + apply Permutation_map. apply Permutation_sym. apply sort_by_perm.
+      + apply NoDup_map_filter. exact Hq.
+    - intros g Hg. rewrite Hnames. apply (new_fields_fresh e q). unfold news in Hg. apply sort_by_In in Hg. exact Hg. }
+  destruct (insert_new news fs1) as [fs2 er2]. cbn [fst] in H2. destruct er2; exact H2.
+Qed.
+
+Lemma upd_ent_wf : forall o nsn qes e, wf_ent e -> Forall wf_ent qes -> wf_ent (fst (upd_ent o nsn qes e)).
+Proof.
+  intros o nsn qes e Hwf Hq. unfold upd_ent. destruct (find_ent (e_name e) qes) as [q|] eqn:Hf; [|exact Hwf].
+  destruct (negb (short_eqb (e_short e) (e_short q))); [exact Hwf|].
+  apply entity_update_wf; [exact Hwf|]. apply (findk_some e_name) in Hf. destruct Hf as [Hin _].
+  rewrite Forall_forall in Hq. apply (Hq q Hin).
+Qed.
+
+Lemma upd_ent_ok_inv : forall o nsn qes e, snd (upd_ent o nsn qes e) = None ->
+  exists q, find_ent (e_name e) qes = Some q /\ e_short q = e_short e.
+Proof.
+  intros o nsn qes e H. unfold upd_ent in H. destruct (find_ent (e_name e) qes) as [q|]; [|discriminate].
+  destruct (short_eqb (e_short e) (e_short q)) eqn:Hs; [|discriminate].
+  exists q. split; [reflexivity|]. apply short_eqb_eq in Hs. symmetry. exact Hs.
+Qed.
+
+Lemma upd_ns_wf : forall o sys P n, wf_ns n -> Forall wf_ns P -> wf_ns (fst (upd_ns o sys P n)).
+Proof.
+  intros o sys P n Hwf HP. unfold upd_ns.
+  destruct (find_ns (n_name n) P) as [p|] eqn:Hfp; [|exact Hwf].
+  destruct (N.eqb (n_id p) (n_id n)) eqn:Hid; [|exact Hwf]. cbn [negb]. apply N.eqb_eq in Hid.
+  apply (findk_some n_name) in Hfp. destruct Hfp as [Hpin Hpname].
+  assert (Hp : wf_ns p) by (rewrite Forall_forall in HP; apply HP; exact Hpin).
+  assert (Hpart : nspart p = nspart n) by (unfold nspart; rewrite Hpname, Hid; reflexivity).
+  destruct Hwf as [Hn [Hs Hf]]. destruct Hp as [Hpn [Hps Hpf]].
+  set (F := upd_ent o (n_name n) (n_ents p)).
+  set (R := o_ent o (n_name n)).
+  destruct (loop e_name R F (n_ents n)) as [es er] eqn:Hl.
+  assert (Hes : es = fst (loop e_name R F (n_ents n))) by (rewrite Hl; reflexivity).
+  assert (Hnames : map e_name es = map e_name (n_ents n)).
+  { rewrite Hes. apply loop_map_inv. intros a _. apply upd_ent_ext. }
+  assert (Hshorts : map e_short es = map e_short (n_ents n)).
+  { rewrite Hes. apply loop_map_inv. intros a _. apply upd_ent_ext. }
+  assert (Hfor : Forall (fun e => fst (e_short e) = nspart n /\ wf_ent e) es).
+  { rewrite Hes. apply loop_Forall; [exact Hf|]. intros a Ha [Ha1 Ha2]. split.
+    - destruct (upd_ent_ext o (n_name n) (n_ents p) a) as [_ [Hsh _]]. unfold F. rewrite Hsh. exact Ha1.
+    - apply upd_ent_wf; [exact Ha2|]. eapply Forall_impl; [|exact Hpf]. intros x [_ Hx]. exact Hx. }
+  destruct er as [x|]; unfold wf_ns, wf_ents; cbn [fst n_ents set_ents];
+    change (nspart (set_ents n es)) with (nspart n); change (nspart (set_ents n (es ++ new_ents n p))) with (nspart n).
+  - rewrite Hnames, Hshorts. split; [exact Hn|]. split; [exact Hs | exact Hfor].
+  - assert (Hall : forall a, In a (n_ents n) -> snd (F a) = None).
+    { apply (loop_ok_all e_name F R). rewrite Hl. reflexivity. }
+    rewrite !map_app, Hnames, Hshorts. split; [|split].
+    + apply NoDup_app_intro; [exact Hn | apply NoDup_map_filter; exact Hpn|].
+      intros x Hx Hx2. apply in_map_iff in Hx2. destruct Hx2 as [q [Hq Hqin]]. apply (new_ents_fresh n p q Hqin). rewrite Hq. exact Hx.
+    + apply NoDup_app_intro; [exact Hs | apply NoDup_map_filter; exact Hps|].
+      intros x Hx Hx2. apply in_map_iff in Hx. destruct Hx as [a [Ha Hain]].
+      apply in_map_iff in Hx2. destruct Hx2 as [r [Hr Hrin]].
+      destruct (upd_ent_ok_inv o (n_name n) (n_ents p) a (Hall a Hain)) as [q [Hfq Hqs]].
+      apply (findk_some e_name) in Hfq. destruct Hfq as [Hqin Hqname].
+      assert (Hrp : In r (n_ents p)) by (unfold new_ents in Hrin; apply filter_In in Hrin; apply Hrin).
+      assert (Heq : q = r). { apply (NoDup_map_inj _ _ e_short (n_ents p)); [exact Hps | exact Hqin | exact Hrp | congruence]. }
+      subst r. apply (new_ents_fresh n p q Hrin). rewrite Hqname. apply in_map. exact Hain.
+    + apply Forall_app. split; [exact Hfor|]. rewrite Forall_forall. intros q Hq.
+      unfold new_ents in Hq. apply filter_In in Hq. destruct Hq as [Hq _].
+      rewrite Forall_forall in Hpf. rewrite <- Hpart. apply Hpf. exact Hq.
+Qed.
+
+Lemma upd_ns_ok_inv : forall o sys P n, snd (upd_ns o sys P n) = None ->
+  (find_ns (n_name n) P = None /\ (sys = true \/ n_name n = 1)) \/
+  (exists p, find_ns (n_name n) P = Some p /\ n_id p = n_id n).
+Proof.
+  intros o sys P n H. unfold upd_ns in H. destruct (find_ns (n_name n) P) as [p|].
+  - right. exists p. split; [reflexivity|]. destruct (N.eqb (n_id p) (n_id n)) eqn:Hid; [apply N.eqb_eq; exact Hid | discriminate].
+  - left. split; [reflexivity|]. cbn in H. destruct sys; [left; reflexivity|]. right.
+    destruct (N.eqb (n_name n) 1) eqn:He; [apply N.eqb_eq; exact He | discriminate].
+Qed.
+
+Lemma existsb_false_all : forall A (p : A -> bool) l, existsb p l = false -> forall a, In a l -> p a = false.
+Proof.
+  intros A p l H a Ha. destruct (p a) eqn:Hp; [|reflexivity].
+  assert (existsb p l = true) by (apply existsb_exists; exists a; split; assumption). congruence.
+Qed.
+
+Lemma nodup_const_length : forall (l : list N) c, NoDup l -> (forall x, In x l -> x = c) -> (length l <= 1)%nat.
+Proof.
+  intros [|a [|b l]] c Hnd Hc; cbn; try lia.
+  exfalso. inversion Hnd as [|? ? Ha _]. subst. apply Ha. left.
+  rewrite (Hc a (or_introl eq_refl)). rewrite (Hc b (or_intror (or_introl eq_refl))). reflexivity.
+Qed.
+
+Lemma sys_parse_ids : forall P, wf_parse 0 P -> (forall p, In p P -> n_name p = 1) -> forall p, In p P -> n_id p = 0.
+Proof.
+  intros P [Hn [_ [_ Hb]]] Hall p Hp.
+  assert (Hlen : (length (map n_name P) <= 1)%nat).
+  { apply (nodup_const_length _ 1 Hn). intros x Hx. apply in_map_iff in Hx. destruct Hx as [q [<- Hq]]. apply Hall. exact Hq. }
+  rewrite map_length in Hlen. rewrite Forall_forall in Hb. specialize (Hb p Hp). unfold len in Hb. lia.
+Qed.
+
+(* whatever the verdict and the iteration orders, the model stays free of collisions *)
+Theorem upd_wf : forall o sys M v, wf_model (m_nss M) -> wf_model (m_nss (fst (upd o sys M v))).
+Proof.
+  intros o sys M v Hwf. unfold upd.
+  destruct (parse (if sys then 0 else 1) v) as [P|e] eqn:Hparse; [|exact Hwf].
+  apply parse_wf in Hparse.
+  destruct (ns_check_fails sys P) eqn:Hchk; [exact Hwf|].
+  pose proof (existsb_false_all _ _ _ Hchk) as Hnames. clear Hchk.
+  destruct Hparse as [HPn [HPi [HPw HPb]]].
+  assert (HPwf : Forall wf_ns P) by (eapply Forall_impl; [|exact HPw]; intros a [Ha _]; exact Ha).
+  destruct Hwf as [Hn [Hi [Hw Hr]]].
+  set (F := upd_ns o sys P).
+  destruct (loop n_name (o_ns o) F (m_nss M)) as [nss er] eqn:Hl.
+  assert (Hnss : nss = fst (loop n_name (o_ns o) F (m_nss M))) by (rewrite Hl; reflexivity).
+  assert (Hnm : map n_name nss = map n_name (m_nss M)).
+  { rewrite Hnss. apply loop_map_inv. intros a _. apply upd_ns_ext. }
+  assert (Hids : map n_id nss = map n_id (m_nss M)).
+  { rewrite Hnss. apply loop_map_inv. intros a _. apply upd_ns_ext. }
+  assert (Hwn : Forall wf_ns nss).
+  { rewrite Hnss. apply loop_Forall; [exact Hw|]. intros a _ Ha. apply upd_ns_wf; assumption. }
+  assert (Hrn : Forall sys_rule nss).
+  { rewrite Hnss. apply loop_Forall; [exact Hr|]. intros a _ Ha. unfold sys_rule in *.
+    destruct (upd_ns_ext o sys P a) as [H1 [H2 _]]. unfold F. rewrite H1, H2. exact Ha. }
+  destruct er as [x|]; cbn [fst m_nss]; unfold wf_model.
+  - rewrite Hnm, Hids. repeat split; assumption.
+  - assert (Hall : forall a, In a (m_nss M) -> snd (F a) = None).
+    { apply (loop_ok_all n_name F (o_ns o)). rewrite Hl. reflexivity. }
+    (* facts about a new namespace r *)
+    assert (Hnew : forall r, In r (new_nss (m_nss M) P) -> In r P /\ ~ In (n_name r) (map n_name (m_nss M))).
+    { intros r Hr'. split; [unfold new_nss in Hr'; apply filter_In in Hr'; apply Hr' | apply (new_nss_fresh _ P); exact Hr']. }
+    assert (Hsysid : sys = true -> forall r, In r P -> n_name r = 1 /\ n_id r = 0).
+    { intros -> r Hrin.
+      assert (Hone : forall p, In p P -> n_name p = 1).
+      { intros p Hp. specialize (Hnames p Hp). cbn in Hnames. apply negb_false_iff in Hnames. apply N.eqb_eq. exact Hnames. }
+      split; [apply Hone; exact Hrin|]. apply (sys_parse_ids P); [repeat split; assumption | exact Hone | exact Hrin]. }
+    assert (Husr : sys = false -> forall r, In r P -> n_name r <> 1 /\ 1 <= n_id r).
+    { intros -> r Hrin. split.
+      - specialize (Hnames r Hrin). cbn in Hnames. apply N.eqb_neq. exact Hnames.
+      - rewrite Forall_forall in HPb. apply HPb. exact Hrin. }
+    rewrite !map_app, Hnm, Hids. split; [|split; [|split]].
+    + apply NoDup_app_intro; [exact Hn | apply NoDup_map_filter; exact HPn|].
+      intros x Hx Hx2. apply in_map_iff in Hx2. destruct Hx2 as [r [Hrx Hrin]]. apply (Hnew r Hrin). rewrite Hrx. exact Hx.
+    + apply NoDup_app_intro; [exact Hi | apply NoDup_map_filter; exact HPi|].
+      intros x Hx Hx2. apply in_map_iff in Hx. destruct Hx as [n [Hnx Hnin]].
+      apply in_map_iff in Hx2. destruct Hx2 as [r [Hrx Hrin]]. destruct (Hnew r Hrin) as [HrP Hrfresh].
+      assert (Hrule : sys_rule n) by (rewrite Forall_forall in Hr; apply Hr; exact Hnin).
+      unfold sys_rule in Hrule.
+      destruct (upd_ns_ok_inv o sys P n (Hall n Hnin)) as [[_ Hcase] | [p [Hfp Hpid]]].
+      * destruct sys.
+        -- destruct (Hsysid eq_refl r HrP) as [Hr1 Hr0].
+           destruct (N.eqb (n_name n) 1) eqn:He.
+           ++ apply N.eqb_eq in He. apply Hrfresh. rewrite Hr1, <- He. apply in_map. exact Hnin.
+           ++ lia.
+        -- destruct Hcase as [Hc|Hc]; [discriminate|]. rewrite Hc in Hrule. cbn in Hrule.
+           destruct (Husr eq_refl r HrP) as [_ Hge]. lia.
+      * apply (findk_some n_name) in Hfp. destruct Hfp as [HpP Hpname].
+        assert (Heq : p = r). { apply (NoDup_map_inj _ _ n_id P); [exact HPi | exact HpP | exact HrP | congruence]. }
+        subst r. apply Hrfresh. rewrite Hpname. apply in_map. exact Hnin.
+    + apply Forall_app. split; [exact Hwn|]. rewrite Forall_forall. intros r Hr'.
+      rewrite Forall_forall in HPwf. apply HPwf. apply (Hnew r Hr').
+    + apply Forall_app. split; [exact Hrn|]. rewrite Forall_forall. intros r Hr'. destruct (Hnew r Hr') as [HrP _].
+      unfold sys_rule. destruct sys.
+      * destruct (Hsysid eq_refl r HrP) as [-> ->]. reflexivity.
+      * destruct (Husr eq_refl r HrP) as [Hne Hge]. apply N.eqb_neq in Hne. rewrite Hne. exact Hge.
+Qed.
+
+Lemma wf_model_nil : wf_model [].
+Proof. repeat split; constructor. Qed.
